@@ -113,6 +113,8 @@ type Exec struct {
 	strPieces  map[*Arr][]*StrV
 	symCache   map[int][]string
 	bigInts    map[*Cell]*bigVal
+	prefers    []*Term
+	pcKind     []byte
 }
 
 type Observation struct {
@@ -138,20 +140,24 @@ func (e *Exec) pcWith(extra ...*Term) []*Term {
 	return out
 }
 
-func (e *Exec) addPC(t *Term) {
+func (e *Exec) addPC(t *Term) { e.addPCKind(t, 'b') }
+
+// addPCKind: kind 'a' = assumption of the harness / contract of a nondet value,
+// 'b' = branch decision, 'p' = proved assertion.
+func (e *Exec) addPCKind(t *Term, kind byte) {
 	if t.IsTrue() {
 		return
 	}
 	// keep conjuncts small so that independence slicing works
 	if t.op == OpAnd {
 		for _, a := range t.args {
-			e.addPC(a)
+			e.addPCKind(a, kind)
 		}
 		return
 	}
 	if t.op == OpNot && t.args[0].op == OpOr {
 		for _, a := range t.args[0].args {
-			e.addPC(e.tb.Not(a))
+			e.addPCKind(e.tb.Not(a), kind)
 		}
 		return
 	}
@@ -161,6 +167,7 @@ func (e *Exec) addPC(t *Term) {
 		}
 	}
 	e.pc = append(e.pc, t)
+	e.pcKind = append(e.pcKind, kind)
 }
 
 func (e *Exec) feasible(c *Term) bool {
